@@ -319,8 +319,8 @@ class Producer(object):
             if not self.client.metadata_error_for_topic(topic):
                 break
             self._req_attempts += 1
-            d = Deferred()
-            self.client.reactor.callLater(self._retry_interval, d.callback, True)
+            d = Deferred(lambda _: dc.cancel())
+            dc = self.client.reactor.callLater(self._retry_interval, d.callback, True)
             self._retry_interval *= self.RETRY_INTERVAL_FACTOR
             yield d
 
